@@ -308,6 +308,14 @@ def call(I, fr, name, fname, k, args, depth):
         return iter_next(I, args[0], depth)
     if name.endswith("Iterator::enumerate"):
         return EnumIter(args[0])
+    if name.endswith("Iterator::skip"):
+        it = args[0]
+        for _ in range(args[1]):
+            if iter_next(I, it, depth).vi == 0:
+                break
+        return it
+    if name.endswith("Iterator::rev") and isinstance(deref(I, args[0]), RangeIter):
+        raise Unsupported("rev")
     if name.endswith("slice::<impl [T]>::chunks_exact"):
         return ChunksIter(as_slice(I, args[0]), args[1])
     if name.endswith("Iterator>::position") or name.endswith("Iterator::position"):
